@@ -63,17 +63,7 @@ type c15EngCase struct {
 	Query      []float32  `json:"query"`
 	K          int        `json:"k"`
 	Reinforce  [][]int    `json:"reinforce_calls"` // memory indexes per VReinforce call (-1: unknown id)
-	// Relax lists assertions switched off by the generator because of a known
-	// finding (empty in finding replays, so those run the full oracle).
-	Relax []string `json:"relax,omitempty"`
 }
-
-const (
-	c15RelaxScoredPinned = "scored-search-ignores-pinned"
-	c15RelaxScoredLast   = "scored-search-ignores-last-accessed"
-	c15FindIntCount      = "access-count-int-ignored"
-	c15FindNegCount      = "ebbinghaus-negative-count-nan"
-)
 
 var c15HalfLives = []int64{0, 1, int64(time.Millisecond), int64(time.Second), int64(time.Minute), int64(time.Hour),
 	int64(72 * time.Hour), int64(168 * time.Hour), int64(720 * time.Hour), int64(8760 * time.Hour)}
@@ -325,60 +315,6 @@ func c15GenEng() *rapid.Generator[c15EngCase] {
 	})
 }
 
-// c15EngExclude avoids / relaxes the shapes of known findings (generator side).
-func c15EngExclude(c *c15EngCase, col *verifkit.Collector) {
-	cfg := c15BuildCfg(*c)
-	if !c15Enabled(cfg) {
-		return
-	}
-	if verifkit.Known(c15FindNegCount) {
-		hit := false
-		for i := range c.Mems {
-			if c.Mems[i].CountType != "absent" && c.Mems[i].Count < -1 {
-				c.Mems[i].Count = -1
-				hit = true
-			}
-		}
-		if hit {
-			col.Excluded(c15FindNegCount)
-		}
-	}
-	if verifkit.Known(c15FindIntCount) {
-		hit := false
-		for i := range c.Mems {
-			m := &c.Mems[i]
-			if (m.CountType == "int" || m.CountType == "int64") && m.Count != 0 && c15ModelOf(cfg, *m) == "ebbinghaus" {
-				m.CountType = "float64"
-				hit = true
-			}
-		}
-		if hit {
-			col.Excluded(c15FindIntCount)
-		}
-	}
-	if verifkit.Known(c15RelaxScoredPinned) {
-		for _, m := range c.Mems {
-			if c15PinnedOf(cfg, m) {
-				c.Relax = append(c.Relax, c15RelaxScoredPinned)
-				col.Excluded(c15RelaxScoredPinned)
-				break
-			}
-		}
-	}
-	if verifkit.Known(c15RelaxScoredLast) {
-		hit := len(c.Reinforce) > 0
-		for _, m := range c.Mems {
-			if m.LastAgeS != nil {
-				hit = true
-			}
-		}
-		if hit {
-			c.Relax = append(c.Relax, c15RelaxScoredLast)
-			col.Excluded(c15RelaxScoredLast)
-		}
-	}
-}
-
 func c15EngNonTrivial(c c15EngCase) bool {
 	cfg := c15BuildCfg(c)
 	if !c15Enabled(cfg) {
@@ -533,7 +469,6 @@ type c15Runner struct {
 	e     *Engine
 	st    []c15State
 	byID  map[string]int
-	relax map[string]bool
 	stats *c15Stats
 }
 
@@ -630,11 +565,6 @@ func (r *c15Runner) search(phase string) string {
 			r.stats.between++
 		}
 		sim[res.ID], scoreS[res.ID], posS[res.ID] = s, res.Score, i
-		relaxed := (r.relax[c15RelaxScoredPinned] && c15PinnedOf(r.cfg, r.c.Mems[mi])) ||
-			(r.relax[c15RelaxScoredLast] && r.st[mi].hasLast && r.st[mi].last > r.st[mi].created)
-		if relaxed {
-			continue
-		}
 		hi, ok1 := r.expect(mi, float64(t0))
 		lo, ok2 := r.expect(mi, float64(t1))
 		if ok1 && ok2 && !c15InBracket(f, lo, hi) {
@@ -701,12 +631,6 @@ func (r *c15Runner) search(phase string) string {
 			if R < 0 {
 				continue
 			}
-			if _, ok := r.expect(R, float64(t0)); !ok {
-				continue
-			}
-			if _, ok := r.expect(U, float64(t0)); !ok {
-				continue
-			}
 			rid, uid := r.c.Mems[R].ID, r.c.Mems[U].ID
 			for _, api := range []struct {
 				name  string
@@ -767,10 +691,7 @@ func c15RunEng(c c15EngCase, stats *c15Stats) (msg string) {
 	}
 	defer e.Close()
 
-	r := &c15Runner{c: c, cfg: c15BuildCfg(c), e: e, byID: map[string]int{}, relax: map[string]bool{}, stats: stats}
-	for _, x := range c.Relax {
-		r.relax[x] = true
-	}
+	r := &c15Runner{c: c, cfg: c15BuildCfg(c), e: e, byID: map[string]int{}, stats: stats}
 	metric := distance.Euclidean
 	if c.Metric == "cosine" {
 		metric = distance.Cosine
@@ -929,7 +850,6 @@ func TestVerif_C15_engine(t *testing.T) {
 	verifkit.RapidSetup(1600, 100000)
 	rapid.Check(t, func(rt *rapid.T) {
 		c := c15GenEng().Draw(rt, "case")
-		c15EngExclude(&c, col)
 		col.Case(c, c15EngNonTrivial(c), c15EngLabels(c)...)
 		msg := c15RunEng(c, stats)
 		if msg != "" {
